@@ -66,7 +66,14 @@ type Policy struct {
 	// task "was slow". Timers and deadlines of the code under test then fire
 	// while work is still in progress. Recorded in the picks as negative entries.
 	Jitter int `json:"jitter,omitempty"`
+	// GMP: what runtime.GOMAXPROCS(0) reports when it differs from NumCPU
+	// (0: the same; k: min(k, NumCPU) - a CPU quota below the core count)
+	GMP int `json:"gmp,omitempty"`
 }
+
+// Recorded returns the policy that replays recorded picks under the same
+// per-run environment knobs (pool behaviour, GOMAXPROCS).
+func (p Policy) Recorded() Policy { return Policy{Kind: "recorded", Pool: p.Pool, GMP: p.GMP} }
 
 // Options configures one simulated run.
 type Options struct {
@@ -119,6 +126,7 @@ type Result struct {
 	Picks         []int     `json:"picks,omitempty"`
 	InvariantFail string    `json:"invariant_fail,omitempty"`
 	FakeSleeps    int       `json:"fake_sleeps,omitempty"`
+	FakeSlept     time.Duration `json:"fake_slept_ns,omitempty"` // simulated time the controller let pass while every task slept or was blocked
 	Jitters       int       `json:"jitters,omitempty"`   // steps at which simulated time was let pass
 	Exited        bool      `json:"exited,omitempty"`    // a task called os.Exit / log.Fatal
 	ExitCode      int       `json:"exit_code,omitempty"` // its status
@@ -253,6 +261,7 @@ func Run(t *testing.T, opt Options, body func()) (res Result) {
 		pk := newPicker(opt.Policy, opt.Picks)
 		simrt.Begin(opt.NumCPU, opt.Entropy)
 		simrt.SetPoolMode(opt.Policy.Pool)
+		simrt.SetGoMaxProcs(opt.Policy.GMP)
 		defer simrt.End()
 		main := simrt.Child("main")
 		go simrt.RunTask(main, body)
@@ -301,13 +310,20 @@ func Run(t *testing.T, opt Options, body func()) (res Result) {
 						allDone = false
 					}
 				}
-				if allDone || sleeps >= 3 || res.FakeSleeps >= 100000 {
+				// Let simulated time pass in doubling stretches (1 ms, 2 ms, ... ) until
+				// somebody wakes up or, per stall, about four years have gone by:
+				// a sleeping task is reached with at most twice its sleep, a task
+				// that is blocked for good costs some forty cheap iterations. (The
+				// bubble's clock is an int64 of nanoseconds from the year 2000;
+				// stretches are kept short so that thousands of stalls cannot
+				// overflow it.)
+				if allDone || sleeps >= 37 || res.FakeSleeps >= 2000000 {
 					break
 				}
-				// let simulated time pass: an hour, then four days, then a year
-				d := []time.Duration{time.Hour, 100 * time.Hour, 10000 * time.Hour}[sleeps]
+				d := time.Millisecond << uint(sleeps)
 				sleeps++
 				res.FakeSleeps++
+				res.FakeSlept += d
 				time.Sleep(d)
 				continue
 			}
@@ -339,6 +355,7 @@ func Run(t *testing.T, opt Options, body func()) (res Result) {
 					res.Jitters++
 					h = fnv(h, "jitter")
 					jittered = true
+					res.FakeSlept += jitterDurations[ji]
 					time.Sleep(jitterDurations[ji])
 					continue
 				}
